@@ -13,7 +13,9 @@ class DC16:
     b: object
 
 
-ELEMS = {"s3": ["a", "b", "c"], "s2": ["x", "y"], "i3": [0, 8, 16], "m2": [1, "1"], "f2": ["fa", "fb"]}
+ELEMS = {"s3": ["a", "b", "c"], "s2": ["x", "y"], "i3": [0, 8, 16], "m2": [1, "1"], "f2": ["fa", "fb"],
+         # equal-but-different twins (True == 1 == 1.0, (1, "t") == (1.0, "t")) in non-orderable sets, with strings in between
+         "tA": [True, "m", "q", (1, "t")], "tB": [1.0, "m", "q", (1.0, "t")], "tC": [1, "p", "r", (True, "t")]}
 
 
 def variants():
@@ -62,7 +64,10 @@ def main():
 
     reg = get_type_registry()
     out = []
-    for vid, var, v in variants():
+    order = list(variants())
+    if len(sys.argv) > 2 and sys.argv[2] == "rev":
+        order.reverse()  # the same values hashed in the opposite order within this process: a hash must not depend on what was hashed before
+    for vid, var, v in order:
         try:
             h = reg.get_hash(v)
         except Exception as e:  # noqa: BLE001
